@@ -596,6 +596,12 @@ class MainTransformer(object):
             return None
         target = self._transformer.lookup_typenode(typeval)
         if isinstance(target, ast.Alias):
+            # Look through aliases of aliases
+            while target.target.target_giname is not None:
+                next_target = self._transformer.lookup_typenode(target.target)
+                if not isinstance(next_target, ast.Alias):
+                    break
+                target = next_target
             return self._get_transfer_default_returntype_basic(target.target)
         elif (isinstance(target, ast.Boxed)
               or (isinstance(target, (ast.Record, ast.Union))
